@@ -25,7 +25,9 @@ P == INSTANCE Placement WITH UpperMap <- MCUpperMap, InvalidParts <- MCInvalidPa
 (* vocabulary: users, requested queues, tags *)
 Users == { [user |-> "u1",      uparts |-> <<"u1">>,         groups |-> {"g1"}],
            [user |-> "u2",      uparts |-> <<"u2">>,         groups |-> {"g2"}],
-           [user |-> "dot.ted", uparts |-> <<"dot", "ted">>, groups |-> {"gd"}] }
+           [user |-> "dot.ted", uparts |-> <<"dot", "ted">>, groups |-> {"gd"}],
+           \* a user name with the characters that are legal for users but not for groups (and legal in a queue name)
+           [user |-> "svc@x#1", uparts |-> <<"svc@x#1">>,    groups |-> {"g2"}] }
 
 QueueNames == { <<>>, <<"a">>, <<"x">>, <<"new">>, <<"d">>, <<"p", "x">>, <<"ROOT", "A">>, <<"b!d">>,
                 <<"root", "a">>, <<"root", "p">>, <<"root", "p", "x">>, <<"root", "p", "new">>, <<"root", "d">>,
@@ -86,11 +88,14 @@ Kinds == { [name |-> "provided", value |-> <<>>], [name |-> "user", value |-> <<
          \cup { [name |-> "fixed", value |-> v] : v \in FixedValues }
 
 \* rx: the single regular expression entry the filter is configured with ("" = plain lists); the model declares which
-\* of its users the expression matches: "^u" matches u1 and u2, not dot.ted
+\* of its users the expression matches: "^u" matches u1 and u2, not dot.ted and not svc@x#1
 Filters == { [type |-> "none",  users |-> {},           groups |-> {},     rx |-> ""],
              [type |-> "allow", users |-> {"u1"},       groups |-> {},     rx |-> ""],
              [type |-> "deny",  users |-> {},           groups |-> {"g1"}, rx |-> ""],
-             [type |-> "allow", users |-> {"u1", "u2"}, groups |-> {},     rx |-> "^u"] }
+             [type |-> "allow", users |-> {"u1", "u2"}, groups |-> {},     rx |-> "^u"],
+             \* lists with more than one entry (these take the list branch of the filter construction)
+             [type |-> "allow", users |-> {"u1", "svc@x#1"}, groups |-> {},          rx |-> ""],
+             [type |-> "deny",  users |-> {"u2", "svc@x#1"}, groups |-> {"g1", "gd"}, rx |-> ""] }
 
 BaseRules == { [name |-> k.name, value |-> k.value, create |-> c, filter |-> f, parent |-> <<>>] :
                k \in Kinds, c \in BOOLEAN, f \in Filters }
